@@ -157,6 +157,7 @@ def main(argv=None):
             if not s['reached'] and not s['violations']:
                 problems.append('%s: vacuous (no check reached)' % h.name)
 
+    explore.drop_pool()
     # --- report -----------------------------------------------------------
     known_ids = explore.load_known(prop)
     rc = EXIT_OK
